@@ -671,7 +671,10 @@ func marshalBigInt(info TypeInfo, value interface{}) ([]byte, error) {
 	case uint8:
 		return encBigInt(int64(v)), nil
 	case big.Int:
-		return encBigInt2C(&v), nil
+		if !v.IsInt64() {
+			return nil, marshalErrorf("marshal bigint: value %s out of range", v.String())
+		}
+		return encBigInt(v.Int64()), nil
 	case string:
 		i, err := strconv.ParseInt(value.(string), 10, 64)
 		if err != nil {
@@ -773,6 +776,8 @@ func marshalVarint(info TypeInfo, value interface{}) ([]byte, error) {
 			retBytes = make([]byte, 8)
 			binary.BigEndian.PutUint64(retBytes, v)
 		}
+	case big.Int:
+		retBytes = encBigInt2C(&v)
 	default:
 		retBytes, err = marshalBigInt(info, value)
 	}
